@@ -1007,6 +1007,10 @@ class Evaluation:
                 if isinstance(v, Phi):
                     for _, x in v.alts:
                         work.append((x, en, d + 1))
+                # `?` results and awaited results are named after their operand
+                m = re.match(r"^(?:try|poll)\((.*)\)(?:@L\d+)?(?:[:.][A-Za-z0-9_.:]+)?$", lab)
+                if m:
+                    work.append((Opaque(m.group(1)), en, d + 1))
                 base = re.split(r"[:.](?=[A-Za-z0-9_]+)", lab)[0] if lab not in by_site else lab
                 for cand in (lab, re.sub(r"(:[A-Za-z]+|\.[A-Za-z0-9_]+)+$", "", lab), re.sub(r"\.mut\d+$", "", lab)):
                     e = by_site.get(cand)
